@@ -195,6 +195,7 @@ type c15Setup struct {
 func c15Build(r *Run, state string) *c15Setup {
 	g := AdminGenesis()
 	g.TokenPairList = append(g.TokenPairList, cctptypes.TokenPair{RemoteDomain: 7, RemoteToken: distinct32(0xC7), LocalToken: "uusdc"}) // linked pair without a messenger
+	g.PerMessageBurnLimitList = append(g.PerMessageBurnLimitList, cctptypes.PerMessageBurnLimit{Denom: "uATOM", Amount: math.NewInt(5)}) // an entry only genesis can create (handlers lower-case)
 	switch state {
 	case "no-attesters":
 		g.AttesterList = nil
@@ -313,6 +314,8 @@ func c15Build(r *Run, state string) *c15Setup {
 		MkDeposit(UserA.Str, math.NewInt(5), DomEth, distinct32(0x24), "uusdc").WithFault(FaultNone, FaultBefore),
 		MkDeposit(UserA.Str, math.NewInt(5), DomEth, distinct32(0x24)[:31], "uusdc"),
 		MkDeposit(bad, math.NewInt(5), DomEth, distinct32(0x24), "uusdc"),
+		MkDeposit(ShortAcct.Str, math.NewInt(2), DomEth, distinct32(0x24), "uusdc"), // a legal account address shorter than 20 bytes
+		MkSend(ShortAcct.Str, DomEth, distinct32(0x21), []byte("s")),
 		MkDepositWithCaller(UserA.Str, math.NewInt(5), DomAvax, distinct32(0x24), "uusdc", distinct32(0x25)),
 		MkDepositWithCaller(UserA.Str, math.NewInt(5), DomAvax, distinct32(0x24), "uusdc", nil),
 		MkDepositWithCaller(UserA.Str, math.NewInt(5), DomAvax, distinct32(0x24), "uusdc", distinct32(0x25)[:31]),
@@ -482,6 +485,14 @@ func c15From(r *Run, su *c15Setup, state string, pre []Action, base []byte, obse
 		},
 		"PerMessageBurnLimit": func(c sdk.Context) error {
 			_, e := w.K.PerMessageBurnLimit(c, &cctptypes.QueryGetPerMessageBurnLimitRequest{Denom: "uusdc"})
+			return e
+		},
+		"PerMessageBurnLimit(uatom)": func(c sdk.Context) error {
+			_, e := w.K.PerMessageBurnLimit(c, &cctptypes.QueryGetPerMessageBurnLimitRequest{Denom: "uatom"})
+			return e
+		},
+		"PerMessageBurnLimit(uATOM)": func(c sdk.Context) error {
+			_, e := w.K.PerMessageBurnLimit(c, &cctptypes.QueryGetPerMessageBurnLimitRequest{Denom: "uATOM"})
 			return e
 		},
 		"PerMessageBurnLimits": func(c sdk.Context) error {
